@@ -33,6 +33,26 @@ func main() {
 		os.Exit(check(os.Args[2:]))
 	case "mutate":
 		os.Exit(mutate(os.Args[2:]))
+	case "ssa":
+		// debug: hcsa ssa <pkg-rel> <func> [repo]
+		repo := "/repo"
+		if len(os.Args) > 4 {
+			repo = os.Args[4]
+		}
+		prog, err := core.Load(core.Config{Dir: repo})
+		if err != nil {
+			fmt.Println(err)
+			os.Exit(2)
+		}
+		f := prog.Func(os.Args[2], os.Args[3])
+		if f == nil {
+			fmt.Println("not found")
+			os.Exit(2)
+		}
+		f.WriteTo(os.Stdout)
+		for _, a := range f.AnonFuncs {
+			a.WriteTo(os.Stdout)
+		}
 	default:
 		usage()
 	}
